@@ -78,7 +78,7 @@ Lemma flat_e_text ps : flat_e (RText ps) = concat (map flat_e ps).
 Proof. apply flat_e_parts. Qed.
 Lemma flat_e_tag n ps : flat_e (RTag n ps) = push_m (MTag (canon_name n)) (concat (map flat_e ps)).
 Proof. unfold flat_e. cbn [flat]. change (map (push ?m) ?f) with (push_m m f). now rewrite erase_push, flat_e_parts. Qed.
-Lemma flat_e_href u e ps : flat_e (RHRef u e ps) = push_m (MHRef u false) (concat (map flat_e ps)).
+Lemma flat_e_href u e ps : flat_e (RHRef u e ps) = push_m (MHRef u e) (concat (map flat_e ps)).
 Proof. unfold flat_e. cbn [flat]. change (map (push ?m) ?f) with (push_m m f). now rewrite erase_push, flat_e_parts. Qed.
 Lemma flat_e_prot ps : flat_e (RProt ps) = push_m MProt (concat (map flat_e ps)).
 Proof. unfold flat_e. cbn [flat]. change (map (push ?m) ?f) with (push_m m f). now rewrite erase_push, flat_e_parts. Qed.
@@ -97,8 +97,6 @@ Proof.
 Qed.
 
 (* the same, from the erased renderings of the parts *)
-Definition pushk_e (k : kind) (f : flat_text) : flat_text :=
-  match km k with None => f | Some m => push_m (erase_m m) f end.
 Lemma erase_pushk k f : erase (pushk k f) = pushk_e k (erase f).
 Proof. unfold pushk, pushk_e. destruct (km k); [apply erase_push|reflexivity]. Qed.
 Lemma flat_e_build' k ps : flat_e (build k ps) = pushk_e k (concat (map flat_e ps)).
@@ -147,8 +145,10 @@ Qed.
 
 Lemma tinfo_eqb_eq a b : tinfo_eqb a b = true -> a = b.
 Proof.
-  destruct a, b; cbn; try congruence; intro H;
-    destruct (str_eqb_spec n n0) as [->|] || destruct (str_eqb_spec u u0) as [->|]; congruence.
+  destruct a, b; cbn; try congruence; intro H.
+  - destruct (str_eqb_spec n n0) as [->|]; congruence.
+  - apply andb_prop in H as [H1 H2]. apply Bool.eqb_prop in H2.
+    destruct (str_eqb_spec u u0) as [->|]; congruence.
 Qed.
 
 Definition homog (g : list rt) : Prop :=
@@ -209,7 +209,7 @@ Proof.
       clear - Hall. induction Hall as [|z g Hz _ IH]; [reflexivity|].
       destruct z; try discriminate. inversion Hz; subst. cbn [flat_map parts_of map concat].
       rewrite map_app, concat_app, push_m_app, IH. now rewrite flat_e_tag.
-    + destruct (rec (KHRef u false) (flat_map parts_of g)) as [t|] eqn:R; inversion Hm; subst a.
+    + destruct (rec (KHRef u e) (flat_map parts_of g)) as [t|] eqn:R; inversion Hm; subst a.
       cbn [map concat]. rewrite app_nil_r, (Hrec _ _ _ R). unfold pushk_e; cbn [km erase_m].
       clear - Hall. induction Hall as [|z g Hz _ IH]; [reflexivity|].
       destruct z; try discriminate. inversion Hz; subst. cbn [flat_map parts_of map concat].
@@ -520,17 +520,3 @@ Proof.
   rewrite join_list_flat, erase_join, map_map. reflexivity.
 Qed.
 
-(* ------------------------------------------------------------------------------ *)
-(* the exact statements fail on external hyperlinks (F10) *)
-Lemma ctor_flat_exact_refuted : exists k raw v, mkc k raw = Ok v /\
-  flat v <> pushk k (concat (map flat raw)).
-Proof.
-  exists KText, [RHRef [117%N] true [RStr [97%N]]; RHRef [117%N] true [RStr [98%N]]].
-  eexists. split; [vm_compute; reflexivity|]. vm_compute. discriminate.
-Qed.
-Lemma case_flat_exact_refuted : exists up t v, case_c up t = Ok v /\
-  flat v <> map (conv_pair up) (flat t).
-Proof.
-  exists true, (RHRef [117%N] true [RStr [120%N]]).
-  eexists. split; [vm_compute; reflexivity|]. vm_compute. discriminate.
-Qed.
